@@ -87,6 +87,7 @@ Inductive error :=
 | ELogitChoice                       (* The choice variable does not correspond to a valid alternative *)
 | ELogitChoiceNotInAv                (* Chosen alternative does not appear in availability dict (raised) *)
 | EDuplicate                         (* elementary expressions defined more than once (IdManager) *)
+| EDrawTypes (n : string)            (* Draw variable n is declared with two types (IdManager) *)
 | EDrawsOutside (n : string)         (* draws defined outside the MonteCarlo operator *)
 | ERvOutside (n : string)            (* random variables defined outside the Integrate operator *)
 | EVarOutsideTraj (n : string)       (* variables not inside PanelLikelihoodTrajectory (panel data) *)
@@ -201,11 +202,37 @@ Definition check_draws (T : table) := collect_names (t_draws T).
 Definition check_rv (T : table) := collect_names (t_rv T).
 Definition check_panel (T : table) := collect_names (t_panel T).
 
+(* ------------------------------------------------------------------ one draw name, one distribution *)
+(* IdManager.prepare: the declarations (name, type) of the draws of the formulas it manages; each must
+   agree with the declaration kept for its name.  The check is made against the declarations of ALL the
+   formulas of the manager (ScopeAll) -- or, if it were made formula by formula, of its own (ScopeOwn). *)
+Inductive dscope := ScopeAll | ScopeOwn.
+
+Definition draw_decls (e : expr) : list (string * string) :=
+  flat_map (fun s => match hd_of s with HDraws n t => [(n, t)] | _ => [] end) (subterms e).
+
+Definition decl_clashes (d : string * string) (l : list (string * string)) : bool :=
+  existsb (fun d' => String.eqb (fst d) (fst d') && negb (String.eqb (snd d) (snd d'))) l.
+
+(* the names declared with two types in the list of declarations *)
+Definition clashing_names (l : list (string * string)) : list string :=
+  map fst (filter (fun d => decl_clashes d l) l).
+
+Definition draw_type_errors (sc : dscope) (fs : list expr) : list error :=
+  match sc with
+  | ScopeAll => map EDrawTypes (clashing_names (flat_map draw_decls fs))
+  | ScopeOwn => flat_map (fun f => map EDrawTypes (clashing_names (draw_decls f))) fs
+  end.
+
+(* IdManager(formulas, database, number_of_draws) *)
+Definition idmanager_errors (sc : dscope) (fs : list expr) (cols : list string) : list error :=
+  draw_type_errors sc fs ++ (match prepare fs cols with None => [EDuplicate] | Some _ => [] end).
+
 (* ------------------------------------------------------------------ what the entry points refuse *)
 (* BIOGEME(database, formula): IdManager (duplicates), _audit (draws, random variables, audit),
    the panel rule of the constructor *)
 Definition spec_errors (T : table) (db : database) (e : expr) : list error :=
-  (match prepare [e] (d_cols db) with None => [EDuplicate] | Some _ => [] end) ++
+  idmanager_errors ScopeAll [e] (d_cols db) ++
   map EDrawsOutside (check_draws T e) ++
   map ERvOutside (check_rv T e) ++
   (if d_panel db then map EVarOutsideTraj (check_panel T e) else []) ++
@@ -214,7 +241,7 @@ Definition spec_errors (T : table) (db : database) (e : expr) : list error :=
 (* BIOGEME(database, {'log_like': formula, ...}): the panel rule of the constructor sits in the branch
    "formulas is an Expression" only; it is not applied to formulas given in a dictionary *)
 Definition spec_errors_dict (T : table) (db : database) (e : expr) : list error :=
-  (match prepare [e] (d_cols db) with None => [EDuplicate] | Some _ => [] end) ++
+  idmanager_errors ScopeAll [e] (d_cols db) ++
   map EDrawsOutside (check_draws T e) ++
   map ERvOutside (check_rv T e) ++
   audit T db e.
@@ -237,10 +264,14 @@ Definition biogeme_audit_errors (m : accmode) (T : table) (db : database) (fs : 
   | AccLast => match rev fs with [] => [] | e :: _ => formula_errors T db e end
   end.
 
+(* BIOGEME(database, {name: formula, ...}): one IdManager for all the formulas, then _audit *)
+Definition spec_errors_multi (sc : dscope) (m : accmode) (T : table) (db : database) (fs : list expr) : list error :=
+  idmanager_errors sc fs (d_cols db) ++ biogeme_audit_errors m T db fs.
+
 (* Expression.get_value_c / get_value_and_derivatives(database, prepare_ids=True, gradient, hessian, bhhh):
    prepare (duplicates), audit, the two placement rules, the request *)
 Definition eval_errors (T : table) (db : database) (e : expr) (gradient hessian bhhh : bool) : list error :=
-  (match prepare [e] (d_cols db) with None => [EDuplicate] | Some _ => [] end) ++
+  idmanager_errors ScopeAll [e] (d_cols db) ++
   audit T db e ++
   map EDrawsOutside (check_draws T e) ++
   map ERvOutside (check_rv T e) ++
@@ -297,10 +328,19 @@ Definition union_ok (ns : nests) : bool :=
   let u := nests_union ns ++ nests_alone ns in
   forallb (fun a => mem_Z a (n_choice_set ns)) u && forallb (fun a => mem_Z a u) (n_choice_set ns).
 
-(* models.lognested & co: NestsForNestedLogit(...) then check_partition *)
+(* a nest that lists an alternative more than once: len(set(l)) != len(l) *)
+Fixpoint nodupZb (l : list Z) : bool :=
+  match l with
+  | [] => true
+  | x :: r => negb (mem_Z x r) && nodupZb r
+  end.
+Definition nests_repeat (ns : nests) : bool := existsb (fun a => negb (nodupZb a)) (n_alts ns).
+
+(* models.lognested & co: NestsForNestedLogit(...) then check_partition (check_union and check_intersection,
+   which also refuses a nest with a repeated alternative) *)
 Definition nested_ok (ns : nests) : bool :=
   match nests_invalid ns with
-  | [] => union_ok ns && negb (nests_overlap ns)
+  | [] => union_ok ns && negb (nests_repeat ns) && negb (nests_overlap ns)
   | _ => false
   end.
 (* models.logcnl & co: NestsForCrossNestedLogit(...) then check_validity (its flag is check_union) *)
